@@ -112,6 +112,18 @@ def observe_case(term, sp, res, deep=False):
         return fails, info
     if te != tr:
         fails.append(('behaviour', dict(O.first_diff(te, tr, uni) or {}, emitted=emitted, reference=res['ref'])))
+    if res.get('semtab'):
+        # oracle calibration: the specification's own matcher (evaluated by TLC) against re on the reference text
+        rc = re.compile(res['ref'], O.FLAGS)
+        for txt, find, full in res['semtab']:
+            t = ''.join(map(chr, txt))
+            exp = tuple((m.start(), m.end(), tuple(m.span(g) for g in range(1, rc.groups + 1))) for m in rc.finditer(t))
+            got = tuple((a, b, tuple(tuple(x) for x in caps)) for a, b, caps in find)
+            if exp != got or (rc.fullmatch(t) is not None) != full:
+                fails.append(('oracle', {'reference': res['ref'], 'text': t, 'spec_find': got, 'spec_full': full,
+                                         're_find': exp, 're_full': rc.fullmatch(t) is not None}))
+                break
+        info['calibrated'] = True
     names = O.group_names(emitted)
     if tuple(names) != tuple(res['caps']):
         fails.append(('caps', {'emitted': emitted, 'observed': names, 'expected': list(res['caps'])}))
@@ -156,9 +168,11 @@ def judge(payload, params):
                          or f not in ('exc', 'accepted', 'crash')]
             oc = info.get('outcome')
             stats['outcome:' + (oc if oc in ('ok', 'skipped', 'ok-ref-uncompilable') else 'raise')] += 1
+            if info.get('calibrated'):
+                stats['calibrated'] += 1
             for facet, detail in fails:
                 stats['facet:' + facet] += 1
-                if facet in facets:
+                if facet in facets or facet == 'oracle':
                     failures.append({'property': prop, 'facet': facet, 'term': B.render(term), 'term_raw': term,
                                      'spelling': sp, 'hashseed': params.get('hashseed', 0), 'detail': detail,
                                      'expected': {'ok': res['ok'], 'ex': sorted(res['ex']), 'ref': res['ref'],
